@@ -8,6 +8,7 @@ import CifModel.Lemmas.StoreRefineR
 import CifModel.Lemmas.StoreRefineC
 import CifModel.Lemmas.StoreTotalS
 import CifModel.Lemmas.StoreCodes
+import CifModel.Lemmas.StoreTree
 /-
   Property C04 — the managed CIF behaves as the documented data model under any API history.
 
@@ -26,7 +27,7 @@ theorem C04_inv_init : WInv {} ∧ InvS {} := ⟨WInv.empty, InvS.empty⟩
 theorem C04_inv_sql (d : Db) (h : Inv d) :
     (Inv d.insertContainer.1) ∧
     (∀ cid k o d', d.insertBlock cid k o = some d' → Inv d') ∧
-    (∀ cid p k o d', d.insertFrame cid p k o = some d' → Inv d') ∧
+    (∀ cid p k o d', p < cid → d.insertFrame cid p k o = some d' → Inv d') ∧
     (∀ id, Inv (d.deleteContainer id).1) ∧
     (∀ cid cat d', d.insertLoopUnnumbered cid cat = .ok d' → Inv d') ∧
     (∀ cid k o ln d', d.insertItem cid k o ln = some d' → Inv d') ∧
@@ -39,7 +40,7 @@ theorem C04_inv_sql (d : Db) (h : Inv d) :
     (∀ cid ln, Inv (d.destroyLoop cid ln).1) ∧
     (∀ cid, Inv (d.prune cid)) ∧
     (∀ cid ln row, Inv (d.removePacket cid ln row)) :=
-  ⟨h.insertContainer, fun _ _ _ _ he => h.insertBlock _ _ _ he, fun _ _ _ _ _ he => h.insertFrame _ _ _ _ he,
+  ⟨h.insertContainer, fun _ _ _ _ he => h.insertBlock _ _ _ he, fun _ _ _ _ _ ho he => h.insertFrame _ _ _ _ ho he,
    fun _ => h.deleteContainer _, fun _ _ _ he => h.insertLoopUnnumbered _ _ he, fun _ _ _ _ _ he => h.insertItem _ _ _ _ he,
    fun _ _ _ _ _ he => h.insertValue _ _ _ _ he, fun _ _ _ _ _ he => h.replaceValue _ _ _ _ he, fun _ _ _ => h.setAllValues _ _ _,
    fun _ _ _ he => h.bumpRowNum _ _ he, fun _ _ => h.resetRowNum _ _, fun _ _ => h.removeItem _ _, fun _ _ => h.destroyLoop _ _,
@@ -1133,5 +1134,46 @@ theorem C04_code_remove_item (norm : Str → Str) (s : Store) (hd : CH) (n : Nam
     (hv : n.valid = true) (hac : s.autocommit = true) (hn : ItemsNormOK norm s.db) :
     (Store.removeItem s hd (some n)).2 = ((Container.mk code fs (absLoops s.db hd.id)).specRemoveItem norm n.key).map (fun _ => ()) :=
   removeItem_code norm s hd n code fs h hv hac hn
+
+
+-- ---- the save-frame tree ---------------------------------------------------------------------------------------------------------------
+
+/-- `abs` shows every container with everything below it: in every state satisfying the invariant the frame relation has no cycle
+    (a frame's container is younger than its parent: `InvTree.frameOrder`, part of `Inv`), and any fuel from `frames.length + 1`
+    on gives the same tree -/
+theorem C04_abs_fuel_suffices (d : Db) (h : Inv d) (cid : Nat) (code : Str) (fuel : Nat) (hf : d.frames.length + 1 ≤ fuel) :
+    absContainer d fuel cid code = absContainer d (d.frames.length + 1) cid code :=
+  absContainer_full d h cid code fuel hf
+
+/-- C04_refines, frame level, proved: cif_container_create_frame on an existing container, no transaction open: on success the
+    container — viewed at any depth — gains exactly one empty save frame under the given spelling, last among its frames, its other
+    frames and its loops are what they were (`Container.specCreateFrame`); the database is `withFrame`, in which every container
+    younger than the parent shows what it showed (`C04_create_frame_elsewhere`).  It fails with the documented model's code
+    (CIF_INVALID_FRAMECODE, CIF_DUP_FRAMECODE within this container only) and then leaves the store identical. -/
+theorem C04_refines_create_frame (norm : Str → Str) (s : Store) (hd : CH) (n : Name) (fuel : Nat) (hac : s.autocommit = true)
+    (hn : FramesNormOK norm s.db) (h : Inv s.db) (hhd : s.db.hasContainer hd.id = true) :
+    match (createFrame s hd (some n)).2 with
+    | .ok h' =>
+      (absContainer s.db (fuel + 1) hd.id hd.code).specCreateFrame norm n.key n.orig n.valid =
+        .ok (absContainer (createFrame s hd (some n)).1.db (fuel + 1) hd.id hd.code) ∧
+      (createFrame s hd (some n)).1.db = withFrame s.db hd.id n.key n.orig ∧
+      h'.code = n.orig ∧ h'.id = s.db.nextId ∧ (createFrame s hd (some n)).1.autocommit = true
+    | .error c =>
+      (absContainer s.db (fuel + 1) hd.id hd.code).specCreateFrame norm n.key n.orig n.valid = .error c ∧
+      (createFrame s hd (some n)).1 = s :=
+  createFrame_refines norm s hd n fuel hac hn h hhd
+
+theorem C04_create_frame_elsewhere (d : Db) (h : Inv d) (par : Nat) (key orig : Str) (k c : Nat) (code : Str) (hlt : par < c) :
+    absContainer (withFrame d par key orig) k c code = absContainer d k c code :=
+  absContainer_withFrame d h par key orig k c code hlt
+
+/-- C04_refines, container level, proved: cif_container_destroy of an existing container: every OTHER container shows afterwards,
+    to any depth, what it showed before with the destroyed node cut off (`cutFrame`: the save_frame row of the destroyed container
+    taken out) — same loops, same packets, same other frames; the block list loses the destroyed block and nothing else. -/
+theorem C04_refines_destroy_container (d : Db) (h : Inv d) (id : Nat) (hex : d.hasContainer id = true) :
+    (d.deleteContainer id).1.blocks = d.blocks.filter (fun b => !(b.cid == id)) ∧
+    (∀ c, c ≠ id → absLoops (d.deleteContainer id).1 c = absLoops d c) ∧
+    (∀ (k c : Nat) (code : Str), c ≠ id → absContainer (d.deleteContainer id).1 k c code = absContainer (cutFrame d id) k c code) :=
+  destroyContainer_refines d h id hex
 
 end CifModel
